@@ -52,8 +52,7 @@ CHECKS = {
              "their bytes, moved bytes exist under DIR. `dedupe` is exercised natively (EOPNOTSUPP: nothing may change) "
              "and through the shim's FICLONE emulation.",
         note=COMMON_NOTE + "FICLONE success is emulated by the LD_PRELOAD shim (whole-file copy); the excluded combination "
-             "--match-links + --symbolic-links is never generated. Known findings D18 (--isolate with -S) and D39 (`link` after `group -S` makes a hard link to a "
-             "relative symbolic link) are listed in known_findings.json.",
+             "--match-links + --symbolic-links is never generated. Known finding D18 (--isolate with -S) is listed in known_findings.json.",
         design="4/C02"),
     "C08": dict(
         category="exploration",
